@@ -160,7 +160,7 @@ func fatalLoop(logPath string) (string, int) {
 		return "", 0
 	}
 	last := msgs[len(msgs)-1]
-	for _, env := range []string{"ExitCode", "connection refused", "timeout", "EOF", "connection reset", "i/o timeout", "broken pipe", "Failed to find good replica", "wait for some time"} {
+	for _, env := range []string{"ExitCode", "connection refused", "timeout", "EOF", "connection reset", "i/o timeout", "broken pipe", "Failed to find good replica", "wait for some time", "Out of ports"} {
 		if strings.Contains(last, env) {
 			return last, 0
 		}
@@ -474,6 +474,13 @@ func RunRebuild(s *Scen, r *vk.Rand, a, b int, bin, base string, cycles int) {
 	size := int64(r.Range(1, 4)) * 4 << 20
 	s.Cfg = map[string]interface{}{"rf": rf, "size": size, "cycles": cycles}
 	AgentPortWidth = []int{20, 6, 9}[(s.Case/100+s.Case)%3]
+	for cyc := 0; cyc < cycles; cyc++ {
+		if (s.Case/100+cyc*5)%9 == 7 {
+			// every transfer of 2.5 s is going to be killed: each leaves its receiver behind (a receiver ends only when its
+			// sender tells it to, or with the agent), which would use up a narrow range for good
+			AgentPortWidth = 20
+		}
+	}
 	s.Cfg["agent_port_range_width"] = AgentPortWidth
 	cl, err := NewCluster("vol", rf, size, bin, base, a, b, r, s.Res)
 	if err != nil {
